@@ -158,6 +158,32 @@ structure MHandleData where
   handles : List MHandle
   deriving DecidableEq, Repr
 
+/-- a Crashpad annotation object: its name and, by type, nothing (`TYPE_INVALID`), a string
+    (`TYPE_STRING`), or the raw value word (any other type: user-defined from 0x8000 on) -/
+inductive MAnnotation where
+  | invalid (name : List UInt8)
+  | string (name value : List UInt8)
+  | other (name : List UInt8) (ty value : Nat)
+  deriving DecidableEq, Repr
+
+/-- `MINIDUMP_MODULE_CRASHPAD_INFO` of one module, strings as UTF-8 bytes, items in file order -/
+structure MModuleCrashpad where
+  index : Nat
+  version : Nat
+  listAnnotations : List (List UInt8)
+  simpleAnnotations : List (List UInt8 × List UInt8)
+  annotationObjects : List MAnnotation
+  deriving DecidableEq, Repr
+
+structure MCrashpad where
+  version : Nat
+  /-- `report_id`, `client_id`: the 11 scalars of a `GUID` each -/
+  reportId : List Nat
+  clientId : List Nat
+  simpleAnnotations : List (List UInt8 × List UInt8)
+  modules : List MModuleCrashpad
+  deriving DecidableEq, Repr
+
 structure DumpModel where
   flags : Nat
   /-- 4 bytes of padding between the count and the entries of the four `read_stream_list` streams -/
@@ -176,6 +202,7 @@ structure DumpModel where
   handles : Option MHandleData := none
   /-- the entries of `/proc/<pid>/maps` (the `LinuxMaps` text stream) -/
   linuxMaps : Option (List MapEntry) := none
+  crashpad : Option MCrashpad := none
   deriving DecidableEq, Repr
 
 /-! ## integers and records -/
@@ -478,6 +505,127 @@ def encLinuxMaps : List MapEntry → List UInt8
   | [] => []
   | x :: xs => mapLineBody x ++ [10] ++ encLinuxMaps xs
 
+/-! ### Crashpad info
+
+    stream = `MINIDUMP_CRASHPAD_INFO` (52 bytes); out-of-band, in this order:
+      dictionary block   = count | (key RVA, value RVA)* | (key, value as MINIDUMP_UTF8_STRING)*
+      module-list block  = count | (index, location)* | per module:
+        MINIDUMP_MODULE_CRASHPAD_INFO (28 bytes) | string-list block | dictionary block | annotation block
+      string-list block  = count | RVA* | strings
+      annotation block   = count | (name RVA, type, reserved, value)* | per object: name, [string value]
+    A location descriptor covers count + records only; the strings are cited by RVA. -/
+
+def ST_CRASHPAD : Nat := ST_CrashpadInfoStream
+
+/-- `MINIDUMP_UTF8_STRING`: u32 length, the bytes, a NUL -/
+def encUtf8 (e : Endian) (s : List UInt8) : List UInt8 := encNat e 4 s.length ++ s ++ [0]
+def utf8Size (s : List UInt8) : Nat := 5 + s.length
+/-- the same without the terminator (the value of a string annotation object) -/
+def encUtf8U (e : Endian) (s : List UInt8) : List UInt8 := encNat e 4 s.length ++ s
+def utf8USize (s : List UInt8) : Nat := 4 + s.length
+
+def RVA_LAYOUT : Layout := [("rva", 4)]
+
+/-! string list -/
+def listStrings (e : Endian) : List (List UInt8) → List UInt8
+  | [] => []
+  | s :: ss => encUtf8 e s ++ listStrings e ss
+def listStringsSize : List (List UInt8) → Nat
+  | [] => 0
+  | s :: ss => utf8Size s + listStringsSize ss
+def listRecs : Nat → List (List UInt8) → List (List Nat)
+  | _, [] => []
+  | soff, s :: ss => [soff] :: listRecs (soff + utf8Size s) ss
+def listBlock (e : Endian) (off : Nat) (ss : List (List UInt8)) : List UInt8 :=
+  encNat e 4 ss.length ++ encRecords e RVA_LAYOUT (listRecs (off + 4 + 4 * ss.length) ss) ++ listStrings e ss
+def listBlockSize (ss : List (List UInt8)) : Nat := 4 + 4 * ss.length + listStringsSize ss
+
+/-! simple string dictionary -/
+def dictStrings (e : Endian) : List (List UInt8 × List UInt8) → List UInt8
+  | [] => []
+  | (k, v) :: r => encUtf8 e k ++ encUtf8 e v ++ dictStrings e r
+def dictStringsSize : List (List UInt8 × List UInt8) → Nat
+  | [] => 0
+  | (k, v) :: r => utf8Size k + utf8Size v + dictStringsSize r
+def dictRecs : Nat → List (List UInt8 × List UInt8) → List (List Nat)
+  | _, [] => []
+  | soff, (k, v) :: r => [soff, soff + utf8Size k] :: dictRecs (soff + utf8Size k + utf8Size v) r
+def dictBlock (e : Endian) (off : Nat) (d : List (List UInt8 × List UInt8)) : List UInt8 :=
+  encNat e 4 d.length ++ encRecords e MINIDUMP_SIMPLE_STRING_DICTIONARY_ENTRY (dictRecs (off + 4 + 8 * d.length) d) ++
+    dictStrings e d
+def dictBlockSize (d : List (List UInt8 × List UInt8)) : Nat := 4 + 8 * d.length + dictStringsSize d
+
+/-! annotation objects -/
+def MAnnotation.name : MAnnotation → List UInt8
+  | .invalid n => n
+  | .string n _ => n
+  | .other n _ _ => n
+def annStringsOf (e : Endian) (a : MAnnotation) : List UInt8 :=
+  encUtf8 e a.name ++ (match a with | .string _ v => encUtf8U e v | _ => [])
+def annStringsSizeOf (a : MAnnotation) : Nat :=
+  utf8Size a.name + (match a with | .string _ v => utf8USize v | _ => 0)
+def annStrings (e : Endian) : List MAnnotation → List UInt8
+  | [] => []
+  | a :: r => annStringsOf e a ++ annStrings e r
+def annStringsSize : List MAnnotation → Nat
+  | [] => 0
+  | a :: r => annStringsSizeOf a + annStringsSize r
+def annRec (soff : Nat) : MAnnotation → List Nat
+  | .invalid _ => [soff, ANNOTATION_TYPE_INVALID, 0, 0]
+  | .string n _ => [soff, ANNOTATION_TYPE_STRING, 0, soff + utf8Size n]
+  | .other _ ty v => [soff, ty, 0, v]
+def annRecs : Nat → List MAnnotation → List (List Nat)
+  | _, [] => []
+  | soff, a :: r => annRec soff a :: annRecs (soff + annStringsSizeOf a) r
+def annBlock (e : Endian) (off : Nat) (as : List MAnnotation) : List UInt8 :=
+  encNat e 4 as.length ++ encRecords e MINIDUMP_ANNOTATION (annRecs (off + 4 + 12 * as.length) as) ++ annStrings e as
+def annBlockSize (as : List MAnnotation) : Nat := 4 + 12 * as.length + annStringsSize as
+
+/-! one module, the module list, the whole out-of-band group -/
+def modBlockSize (x : MModuleCrashpad) : Nat :=
+  28 + listBlockSize x.listAnnotations + dictBlockSize x.simpleAnnotations + annBlockSize x.annotationObjects
+
+def modRec (off : Nat) (x : MModuleCrashpad) : List Nat :=
+  let la := off + 28
+  let sa := la + listBlockSize x.listAnnotations
+  let ao := sa + dictBlockSize x.simpleAnnotations
+  [x.version, 4 + 4 * x.listAnnotations.length, la, 4 + 8 * x.simpleAnnotations.length, sa,
+   4 + 12 * x.annotationObjects.length, ao]
+
+def modBlock (e : Endian) (off : Nat) (x : MModuleCrashpad) : List UInt8 :=
+  let la := off + 28
+  let sa := la + listBlockSize x.listAnnotations
+  let ao := sa + dictBlockSize x.simpleAnnotations
+  encFields e MINIDUMP_MODULE_CRASHPAD_INFO (modRec off x) ++ listBlock e la x.listAnnotations ++
+    dictBlock e sa x.simpleAnnotations ++ annBlock e ao x.annotationObjects
+
+def modBlocks (e : Endian) : Nat → List MModuleCrashpad → List UInt8
+  | _, [] => []
+  | off, x :: xs => modBlock e off x ++ modBlocks e (off + modBlockSize x) xs
+def modBlocksSize : List MModuleCrashpad → Nat
+  | [] => 0
+  | x :: xs => modBlockSize x + modBlocksSize xs
+def linkRecs : Nat → List MModuleCrashpad → List (List Nat)
+  | _, [] => []
+  | off, x :: xs => [x.index, 28, off] :: linkRecs (off + modBlockSize x) xs
+def modListBlock (e : Endian) (off : Nat) (xs : List MModuleCrashpad) : List UInt8 :=
+  encNat e 4 xs.length ++ encRecords e MINIDUMP_MODULE_CRASHPAD_INFO_LINK (linkRecs (off + 4 + 12 * xs.length) xs) ++
+    modBlocks e (off + 4 + 12 * xs.length) xs
+def modListBlockSize (xs : List MModuleCrashpad) : Nat := 4 + 12 * xs.length + modBlocksSize xs
+
+def crashpadOobOf (e : Endian) (off : Nat) (x : MCrashpad) : List UInt8 :=
+  dictBlock e off x.simpleAnnotations ++ modListBlock e (off + dictBlockSize x.simpleAnnotations) x.modules
+def crashpadOobSizeOf (x : MCrashpad) : Nat := dictBlockSize x.simpleAnnotations + modListBlockSize x.modules
+
+def guidVals (g : List Nat) : List Nat := (g ++ List.replicate (11 - g.length) 0).take 11
+
+def crashpadRec (off : Nat) (x : MCrashpad) : List Nat :=
+  [x.version] ++ guidVals x.reportId ++ guidVals x.clientId ++
+  [4 + 8 * x.simpleAnnotations.length, off, 4 + 12 * x.modules.length, off + dictBlockSize x.simpleAnnotations]
+
+def encCrashpad (e : Endian) (off : Nat) (x : MCrashpad) : List UInt8 :=
+  encFields e MINIDUMP_CRASHPAD_INFO (crashpadRec off x)
+
 /-! ## the whole file -/
 
 /-- sizes of the out-of-band groups -/
@@ -515,7 +663,8 @@ def coreStreamSizes (m : DumpModel) (f : MemForm) : List (Nat × Nat) :=
   optList m.sysInfo (fun _ => (ST_SYSTEM_INFO, 56)) ++
   optList m.miscInfo (fun x => (ST_MISC_INFO, miscInfoSize x)) ++
   optList m.handles (fun x => (ST_HANDLE_DATA_STREAM, handleDataSize x)) ++
-  optList m.linuxMaps (fun x => (ST_LINUX_MAPS, (encLinuxMaps x).length))
+  optList m.linuxMaps (fun x => (ST_LINUX_MAPS, (encLinuxMaps x).length)) ++
+  optList m.crashpad (fun _ => (ST_CRASHPAD, 52))
 
 def streamSizes (m : DumpModel) (f : MemForm) : List (Nat × Nat) :=
   m.extra.map (fun x => (x.1, x.2.length)) ++ coreStreamSizes m f
@@ -536,6 +685,11 @@ def handlesOob (e : Endian) (off : Nat) (m : DumpModel) : List UInt8 :=
   match m.handles with | none => [] | some x => oobHandles e x.v2 off x.handles
 def handlesOobSize (m : DumpModel) : Nat :=
   match m.handles with | none => 0 | some x => oobHandlesSize x.v2 x.handles
+/-- the Crashpad blocks, placed at file offset `off` -/
+def crashpadOob (e : Endian) (off : Nat) (m : DumpModel) : List UInt8 :=
+  match m.crashpad with | none => [] | some x => crashpadOobOf e off x
+def crashpadOobSize (m : DumpModel) : Nat :=
+  match m.crashpad with | none => 0 | some x => crashpadOobSizeOf x
 
 /-- offsets of the out-of-band groups -/
 structure OobOffsets where
@@ -547,6 +701,7 @@ structure OobOffsets where
   exc : Nat
   csd : Nat
   handles : Nat
+  crashpad : Nat
   stop : Nat
   deriving Repr
 
@@ -560,7 +715,8 @@ def oobOffsets (m : DumpModel) (f : MemForm) : OobOffsets :=
   let o6 := o5 + (excCtx m).length
   let o7 := o6 + csdSize m
   let o8 := o7 + handlesOobSize m
-  ⟨o0, o1, o2, o3, o4, o5, o6, o7, o8⟩
+  let o9 := o8 + crashpadOobSize m
+  ⟨o0, o1, o2, o3, o4, o5, o6, o7, o8, o9⟩
 
 /-- the streams after the extras: (type, bytes) -/
 def coreStreams (m : DumpModel) (e : Endian) (f : MemForm) : List (Nat × List UInt8) :=
@@ -577,17 +733,18 @@ def coreStreams (m : DumpModel) (e : Endian) (f : MemForm) : List (Nat × List U
   optList m.sysInfo (fun s => (ST_SYSTEM_INFO, encSysInfo e o.csd s)) ++
   optList m.miscInfo (fun x => (ST_MISC_INFO, encMiscInfo e x)) ++
   optList m.handles (fun x => (ST_HANDLE_DATA_STREAM, encHandleData e o.handles x)) ++
-  optList m.linuxMaps (fun x => (ST_LINUX_MAPS, encLinuxMaps x))
+  optList m.linuxMaps (fun x => (ST_LINUX_MAPS, encLinuxMaps x)) ++
+  optList m.crashpad (fun x => (ST_CRASHPAD, encCrashpad e o.crashpad x))
 
 def allStreams (m : DumpModel) (e : Endian) (f : MemForm) : List (Nat × List UInt8) :=
   m.extra ++ coreStreams m e f
 
-/-- the out-of-band area, given the file offset of the handles' group (the object-info chains cite
-    absolute offsets) -/
-def oobAllAt (m : DumpModel) (e : Endian) (hoff : Nat) : List UInt8 :=
+/-- the out-of-band area, given the file offsets of the handles' and the Crashpad group (their
+    contents cite absolute offsets) -/
+def oobAllAt (m : DumpModel) (e : Endian) (hoff coff : Nat) : List UInt8 :=
   oobThreads m.threads ++ oobModules e m.modules ++ oobMemory m.memory ++
   oobNames e (m.threadNames.map (·.2)) ++ oobNames e (m.unloaded.map (·.name)) ++
-  excCtx m ++ csdString e m ++ handlesOob e hoff m
+  excCtx m ++ csdString e m ++ handlesOob e hoff m ++ crashpadOob e coff m
 
 /-- `time_date_stamp` written into every header (the value minidump-synth uses) -/
 def HEADER_TIME : Nat := 1262805309
@@ -610,7 +767,8 @@ def streamsBytes : List (Nat × List UInt8) → List UInt8
 def encodeStreams (e : Endian) (flags : Nat) (ss : List (Nat × List UInt8)) : List UInt8 :=
   encHeader e ss.length flags ++ encDirectory e (32 + 12 * ss.length) ss ++ streamsBytes ss
 
-def oobAll (m : DumpModel) (e : Endian) (f : MemForm) : List UInt8 := oobAllAt m e (oobOffsets m f).handles
+def oobAll (m : DumpModel) (e : Endian) (f : MemForm) : List UInt8 :=
+  oobAllAt m e (oobOffsets m f).handles (oobOffsets m f).crashpad
 
 def encodeList (m : DumpModel) (e : Endian) (f : MemForm) : List UInt8 :=
   encodeStreams e m.flags (allStreams m e f) ++ oobAll m e f
@@ -642,6 +800,30 @@ structure RException where
   numberParameters : Nat
   info : List Nat
   ctx : Option (List UInt8)
+  deriving DecidableEq, Repr
+
+inductive RAnnValue where
+  | invalid
+  | string (s : List UInt8)
+  | userDefined (ty value : Nat)
+  | unsupported (ty value : Nat)
+  deriving DecidableEq, Repr
+
+structure RModuleCrashpad where
+  index : Nat
+  version : Nat
+  listAnnotations : List (List UInt8)
+  /-- a `BTreeMap`: sorted by key (byte order), the last duplicate wins -/
+  simpleAnnotations : List (List UInt8 × List UInt8)
+  annotationObjects : List (List UInt8 × RAnnValue)
+  deriving DecidableEq, Repr
+
+structure RCrashpad where
+  version : Nat
+  /-- `report_id` then `client_id`: 22 scalars -/
+  ids : List Nat
+  simpleAnnotations : List (List UInt8 × List UInt8)
+  modules : List RModuleCrashpad
   deriving DecidableEq, Repr
 
 structure RHandle where
@@ -692,6 +874,7 @@ structure Reported where
   miscInfo : Except Err MiscInfo
   handles : Except Err (List RHandle)
   linuxMaps : Except Err (List MapEntry)
+  crashpad : Except Err RCrashpad
 
 def sliceList (b : Bytes) (s e : Nat) : List UInt8 := (b.extract s e).toList
 
@@ -727,6 +910,23 @@ def rhandleOf (h : Handle) : RHandle :=
   { v2 := h.vals.length == 9, handle := fld h.vals 0, typeName := h.typeName, objectName := h.objectName,
     attributes := fld h.vals 3, grantedAccess := fld h.vals 4, handleCount := fld h.vals 5, pointerCount := fld h.vals 6,
     infos := h.infos.map fun o => (o.ty, o.size) }
+
+def rdictOf (d : List (Bytes × Bytes)) : List (List UInt8 × List UInt8) := d.map fun kv => (kv.1.toList, kv.2.toList)
+
+def rannValueOf : AnnotationValue → RAnnValue
+  | .invalid => .invalid
+  | .string s => .string s.toList
+  | .userDefined ty v => .userDefined ty v
+  | .unsupported ty v => .unsupported ty v
+
+def rmoduleCrashpadOf (x : ModuleCrashpadInfo) : RModuleCrashpad :=
+  { index := x.moduleIndex, version := x.version, listAnnotations := x.listAnnotations.map (·.toList),
+    simpleAnnotations := rdictOf x.simpleAnnotations,
+    annotationObjects := x.annotationObjects.map fun kv => (kv.1.toList, rannValueOf kv.2) }
+
+def rcrashpadOf (x : List Nat × CrashpadInfo) : RCrashpad :=
+  { version := x.2.version, ids := x.1, simpleAnnotations := rdictOf x.2.simpleAnnotations,
+    modules := x.2.modules.map rmoduleCrashpadOf }
 
 /-- `MinidumpSystemInfo::read` [3175] (the raw record and the CSD string; the `cpu_info` text is
     not modelled) -/
@@ -775,6 +975,7 @@ def decode (b : Bytes) : Res Reported :=
     Res.bind (streamRes d b ST_MISC_INFO (fun s => readMiscInfo s e)) fun misc =>
     Res.bind (streamRes d b ST_HANDLE_DATA_STREAM (fun s => readHandleData ms s b e)) fun handles =>
     Res.bind (streamRes d b ST_LINUX_MAPS (fun s => readLinuxMaps s)) fun maps =>
+    Res.bind (streamRes d b ST_CRASHPAD (fun s => readCrashpadInfoRaw ms s b e)) fun crashpad =>
     .ok { endian := e, flags := d.header.flags,
           threads := threads.map (·.map (rthreadOf b)),
           modules := modules.map (·.map (mmoduleOf e)),
@@ -786,7 +987,8 @@ def decode (b : Bytes) : Res Reported :=
           sysInfo := sys,
           miscInfo := misc,
           handles := handles.map (·.map rhandleOf),
-          linuxMaps := maps }
+          linuxMaps := maps,
+          crashpad := crashpad.map rcrashpadOf }
 
 /-! ## the model as the reader reports it -/
 
@@ -813,6 +1015,27 @@ def reportHandle (v2 : Bool) (h : MHandle) : RHandle :=
   { v2 := v2, handle := h.handle, typeName := h.typeName, objectName := h.objectName, attributes := h.attributes,
     grantedAccess := h.grantedAccess, handleCount := h.handleCount, pointerCount := h.pointerCount,
     infos := (handleInfos v2 h).map fun i => (i.ty, i.size) }
+
+/-- a dictionary as the reader's `BTreeMap` holds it: inserted in file order -/
+def dictOf (d : List (List UInt8 × List UInt8)) : List (Bytes × Bytes) :=
+  d.foldl (fun acc kv => dictInsert kv.1.toArray kv.2.toArray acc) []
+
+def annValueOf : MAnnotation → AnnotationValue
+  | .invalid _ => .invalid
+  | .string _ v => .string v.toArray
+  | .other _ ty v => if ty ≥ ANNOTATION_TYPE_USER_DEFINED then .userDefined ty v else .unsupported ty v
+
+def annDictOf (as : List MAnnotation) : List (Bytes × AnnotationValue) :=
+  as.foldl (fun acc a => dictInsert a.name.toArray (annValueOf a) acc) []
+
+def reportModuleCrashpad (x : MModuleCrashpad) : RModuleCrashpad :=
+  { index := x.index, version := x.version, listAnnotations := x.listAnnotations,
+    simpleAnnotations := rdictOf (dictOf x.simpleAnnotations),
+    annotationObjects := (annDictOf x.annotationObjects).map fun kv => (kv.1.toList, rannValueOf kv.2) }
+
+def reportCrashpad (x : MCrashpad) : RCrashpad :=
+  { version := x.version, ids := guidVals x.reportId ++ guidVals x.clientId,
+    simpleAnnotations := rdictOf (dictOf x.simpleAnnotations), modules := x.modules.map reportModuleCrashpad }
 
 /-- What reading `encode m e f` yields: items in file order; a thread with an empty stack has no
     stack memory; modules with a "bad image size" (0, or reaching past 2^64-1) are skipped by the
@@ -843,7 +1066,10 @@ def report (m : DumpModel) (e : Endian) (f : MemForm) : Reported :=
       | some x => .ok (x.handles.map (reportHandle x.v2)),
     linuxMaps := match m.linuxMaps with
       | none => .error .StreamNotFound
-      | some x => .ok x }
+      | some x => .ok x,
+    crashpad := match m.crashpad with
+      | none => .error .StreamNotFound
+      | some x => .ok (reportCrashpad x) }
 
 /-! ## memory lookup: `memory_at_address` + `get_memory_at_address::<u8>` -/
 
@@ -1165,6 +1391,53 @@ def parseLinuxMaps (s : String) : Option (Option (List MapEntry)) :=
   else if s.startsWith "[" && s.endsWith "]" then (parseList parseMapEntry ((s.drop 1).dropEnd 1).toString).map some
   else none
 
+/-- a byte string token: `x<hex>` -/
+def parseX (s : String) : Option (List UInt8) :=
+  if s.startsWith "x" then Proto.unhex (s.drop 1).toString else none
+
+def parseSep {α : Type} (sep : String) (f : String → Option α) (s : String) : Option (List α) :=
+  if s == "" then some [] else (s.splitOn sep).mapM f
+
+/-- `x<key>:x<value>` -/
+def parseKv (s : String) : Option (List UInt8 × List UInt8) :=
+  match s.splitOn ":" with
+  | [k, v] => match parseX k, parseX v with
+    | some k, some v => some (k, v)
+    | _, _ => none
+  | _ => none
+
+/-- `i:x<name>` | `s:x<name>:x<value>` | `o:x<name>:<ty>:<value>` -/
+def parseAnn (s : String) : Option MAnnotation :=
+  match s.splitOn ":" with
+  | ["i", n] => (parseX n).map .invalid
+  | ["s", n, v] => match parseX n, parseX v with
+    | some n, some v => some (.string n v)
+    | _, _ => none
+  | ["o", n, ty, v] => match parseX n, Proto.optNat ty, Proto.optNat v with
+    | some n, some ty, some v => some (.other n ty v)
+    | _, _, _ => none
+  | _ => none
+
+/-- `<index>!<version>!<list: x../x..>!<dict: kv/kv>!<objects: ann/ann>` -/
+def parseModuleCrashpad (s : String) : Option MModuleCrashpad :=
+  match s.splitOn "!" with
+  | [idx, ver, l, d, a] =>
+    match Proto.optNat idx, Proto.optNat ver, parseSep "/" parseX l, parseSep "/" parseKv d, parseSep "/" parseAnn a with
+    | some idx, some ver, some l, some d, some a => some ⟨idx, ver, l, d, a⟩
+    | _, _, _, _, _ => none
+  | _ => none
+
+/-- `-` | `<version>,<report id: 11 numbers>,<client id>,<dict>,<module>+<module>…` -/
+def parseCrashpad (s : String) : Option (Option MCrashpad) :=
+  if s == "-" then some none else
+  match s.splitOn "," with
+  | [ver, rid, cid, d, ms] =>
+    match Proto.optNat ver, parseNats "." rid, parseNats "." cid, parseSep "/" parseKv d, parseSep "+" parseModuleCrashpad ms with
+    | some ver, some rid, some cid, some d, some ms =>
+      if rid.length = 11 ∧ cid.length = 11 then some (some ⟨ver, rid, cid, d, ms⟩) else none
+    | _, _, _, _, _ => none
+  | _ => none
+
 def parseExtra : List String → Option (Nat × List UInt8)
   | [ty, bytes] =>
     match Proto.optNat ty, parseBytes bytes with
@@ -1206,6 +1479,10 @@ def parseOptional (m : DumpModel) : List String → Option DumpModel
     else if t.startsWith "L=" then
       match field "L=" t >>= parseLinuxMaps with
       | some l => parseOptional { m with linuxMaps := l } rest
+      | none => none
+    else if t.startsWith "C=" then
+      match field "C=" t >>= parseCrashpad with
+      | some c => parseOptional { m with crashpad := c } rest
       | none => none
     else none
 
@@ -1319,6 +1596,22 @@ def showLinuxMaps : Except Err (List MapEntry) → String
   | .error e => "err " ++ e.name
   | .ok xs => "[" ++ Proto.joinWith ";" (xs.map showMapEntry) ++ "]|" ++ showMapProbes xs
 
+def showX (b : List UInt8) : String := "x" ++ Proto.hex b
+def showKvs (d : List (List UInt8 × List UInt8)) : String :=
+  Proto.joinWith "/" (d.map fun (k, v) => showX k ++ ":" ++ showX v)
+def showAnnValue : RAnnValue → String
+  | .invalid => "i"
+  | .string s => "s:" ++ showX s
+  | .userDefined ty v => s!"u:{ty}:{v}"
+  | .unsupported ty v => s!"n:{ty}:{v}"
+def showModuleCrashpad (x : RModuleCrashpad) : String :=
+  s!"{x.index}!{x.version}!" ++ Proto.joinWith "/" (x.listAnnotations.map showX) ++ "!" ++ showKvs x.simpleAnnotations ++ "!" ++
+  Proto.joinWith "/" (x.annotationObjects.map fun (k, v) => showX k ++ "=" ++ showAnnValue v)
+def showCrashpad : Except Err RCrashpad → String
+  | .error e => "err " ++ e.name
+  | .ok x => s!"{x.version},{showNats x.ids},{showKvs x.simpleAnnotations}," ++
+      Proto.joinWith "+" (x.modules.map showModuleCrashpad)
+
 /-- the probe addresses of a region list: around both ends of every region -/
 def probeAddrs (rs : List MRegion) : List Nat :=
   rs.flatMap fun r =>
@@ -1350,7 +1643,8 @@ def showReported (r : Reported) : String :=
     "S=" ++ showSysInfo r.sysInfo,
     "Y=" ++ showMiscInfo r.miscInfo,
     "H=" ++ showList showHandle r.handles,
-    "L=" ++ showLinuxMaps r.linuxMaps]
+    "L=" ++ showLinuxMaps r.linuxMaps,
+    "C=" ++ showCrashpad r.crashpad]
 
 def showEndian : Endian → String
   | .little => "le"
